@@ -216,7 +216,7 @@ class Run:
         self.candidates = []
         self.crosschecks = []
         self.cross_stats = {"cvc5_run": 0, "cvc5_agree": 0, "cvc5_disagree": 0, "cvc5_error": 0, "z3old_run": 0,
-                            "z3old_agree": 0, "z3old_disagree": 0}
+                            "z3old_agree": 0, "z3old_disagree": 0, "budget_exhausted": 0}
         self.total_queries = 0
         self.total_branch_checks = 0
         self.query_timeout_ms = 60000 if tier == "quick" else 300000
@@ -240,7 +240,7 @@ class Run:
         t0 = time.time()
         for ob_id, txt, res in self.crosschecks:
             if time.time() - t0 > budget_s:
-                self.problems.append("second-solver confirmation stopped after %ds budget" % budget_s)
+                self.cross_stats["budget_exhausted"] = self.cross_stats.get("budget_exhausted", 0) + 1
                 break
             r2 = run_external(["cvc5", "--lang", "smt2", "--tlimit=20000"], txt)
             self.cross_stats["cvc5_run"] += 1
